@@ -7,6 +7,8 @@ namespace TfelVerif.C22.Props
 open TfelVerif TfelVerif.C22
 variable {K : Type} [Field K] (c c3 : K) (fn : Fns K)
 set_option maxRecDepth 100000
+set_option profiler true
+set_option profiler.threshold 1000
 
 macro "unfold_eval" : tactic => `(tactic| simp only [eval, evalD, dir, Int.cast_ofNat, Int.cast_one, Int.cast_zero,
   Int.cast_neg, Nat.cast_ofNat, Nat.cast_one, Nat.cast_zero, Nat.reduceEqDiff, OfNat.ofNat_ne_zero, OfNat.zero_ne_ofNat,
@@ -22,6 +24,13 @@ theorem Dr_N1_normal (ρ : Nat → K) :
         eval c c3 fn ρ n2 = evalD c c3 fn ρ (dir 2) v
     | _, _ => False := by
   simp only [Gen.Dr_N1_v.all, Gen.Dr_N1_n.all]
-  unfold_eval
-  refine ⟨?_, ?_, ?_, ?_⟩ <;> ring_nf
+  refine ⟨?_, ?_, ?_, ?_⟩
+  · simp only [eval]
+    ring_nf
+  · simp only [eval, evalD]
+    simp only [dir, Nat.reduceEqDiff, ↓reduceIte]
+    trace_state
+    sorry
+  · sorry
+  · sorry
 end TfelVerif.C22.Props
